@@ -66,6 +66,7 @@ func init() {
 			return Iface{}
 		}
 
+		if optPathsTime {
 		// time comparisons as terms
 		n["(time.Time).After"] = func(x *Exec, fr *frame, a []Value) Value {
 			return x.timeCmp(a[0], a[1], OpSlt, OpUlt, true)
@@ -81,6 +82,7 @@ func init() {
 			st := x.st
 			wall := st.And(st.Eq(t.sec, u.sec), st.Eq(t.nsec, u.nsec))
 			return fromTerm(st.Ite(st.And(t.mono, u.mono), st.Eq(t.ext, u.ext), wall))
+		}
 		}
 	})
 }
